@@ -124,13 +124,13 @@ def run(case):
         rots = None
     else:
         S = 11
-        tshape = (S, S, S)
-        blobs = gen.make_blobs(rng, tshape, n=4, sigma=(1.0, 1.3), r_sup=2.6)
+        tshape = (S, S, S) if rng.random() < 0.5 else (9, 11, 13)   # non-cubic: per-axis overlap depth
+        blobs = gen.make_blobs(rng, tshape, n=4, sigma=(0.9, 1.1), r_sup=1.8)
         tmpl = gen.render_box(tshape, blobs)
         rots = [Rotation.identity(), Rotation.from_rotvec([0, 0, np.pi / 2]), Rotation.from_rotvec([np.pi / 2, 0, 0])]
         depth = int(np.ceil(S / 2))
         shape = tuple(int(x) for x in rng.integers(36, 53, size=3))
-        truth = _place(rng, shape, p["npart"], min_sep=S + 6, margin=S / 2 + 3)
+        truth = _place(rng, shape, p["npart"], min_sep=max(tshape) + 6, margin=max(tshape) / 2 + 3)
         truth = np.round(truth)
         vol = np.zeros(shape)
         ks = []
